@@ -63,6 +63,10 @@ pub struct LiveCase {
     pub parked: u8,
     pub blamed_other: bool,
     pub auxv: AuxvMode,
+    /// a thread of the target keeps opening and closing descriptors: the handle stream must show the
+    /// table as it was while the target was stopped
+    #[serde(default)]
+    pub fd_churn: bool,
 }
 
 fn protection_of(p: u8) -> u32 {
@@ -138,6 +142,9 @@ pub fn check_live(c: &LiveCase) -> Verdict {
         let st = b.add_stack(1, false, 60 + i as u64);
         parked.push(b.add_thread(K_PARKED, Some(format!("w{i}").into_bytes()), st.base + 0x800, 60 + i as u64));
     }
+    if c.fd_churn {
+        b.add_thread(K_FDCHURN, Some(b"churn".to_vec()), 0, 99);
+    }
     // synthetic linker list inside the target, at the arena address
     let mut synth: Option<(u64, u64, Expect)> = None;
     if let AuxvMode::Synthetic(dc) = &c.auxv {
@@ -182,7 +189,32 @@ pub fn check_live(c: &LiveCase) -> Verdict {
     let before: Vec<Option<Vec<u8>>> = ["cmdline", "environ", "auxv", "limits", "maps"].iter().map(|n| rd(n)).collect();
     let mut w = make_writer(pid, &opts);
     let mut dest = Dest::new(vec![], 0);
-    let img = match run_dump(&mut w, &mut dest) {
+    // descriptor table while the target is stopped (taken from the hook just before the threads are resumed)
+    let fd_table = move || -> Vec<(u64, String, u32)> {
+        let mut v = vec![];
+        if let Ok(rdir) = std::fs::read_dir(format!("/proc/{pid}/fd")) {
+            for e in rdir.filter_map(|e| e.ok()) {
+                let Some(fd) = e.file_name().to_str().and_then(|s| s.parse::<u64>().ok()) else { continue };
+                let Ok(link) = std::fs::read_link(e.path()) else { continue };
+                let mut st: libc::stat = unsafe { std::mem::zeroed() };
+                let cp = std::ffi::CString::new(e.path().as_os_str().as_bytes()).unwrap();
+                if unsafe { libc::stat(cp.as_ptr(), &mut st) } != 0 {
+                    continue;
+                }
+                v.push((fd, link.to_string_lossy().into_owned(), st.st_mode));
+            }
+        }
+        v.sort();
+        v
+    };
+    let stopped_table: std::sync::Arc<std::sync::Mutex<Option<Vec<(u64, String, u32)>>>> = Default::default();
+    let st2 = stopped_table.clone();
+    let hook = Box::new(move |p: minidump_writer::verif_hooks::Point| {
+        if p == minidump_writer::verif_hooks::Point::BeforeResume {
+            *st2.lock().unwrap() = Some(fd_table());
+        }
+    });
+    let img = match with_hook(hook, || run_dump(&mut w, &mut dest)) {
         DumpOutcome::Ok(v) => v,
         DumpOutcome::Err(e) => return Verdict::pass_c(None, vec![format!("dump-error:{}", e.split('(').next().unwrap_or(""))]),
         DumpOutcome::Panic(l, m) => return panic_verdict(&l, &m),
@@ -227,7 +259,12 @@ pub fn check_live(c: &LiveCase) -> Verdict {
     // handles vs /proc/pid/fd
     let Some(hs) = d.handles.as_ref() else { bad!("handles:missing", "handle stream missing") };
     let mut want_h: Vec<(u64, String, u32)> = vec![];
-    if let Ok(rdir) = std::fs::read_dir(format!("/proc/{pid}/fd")) {
+    if c.fd_churn {
+        match stopped_table.lock().unwrap().clone() {
+            Some(t) => want_h = t,
+            None => return Verdict::Inconclusive("the before-resume hook did not fire".into()),
+        }
+    } else if let Ok(rdir) = std::fs::read_dir(format!("/proc/{pid}/fd")) {
         for e in rdir.filter_map(|e| e.ok()) {
             let Some(fd) = e.file_name().to_str().and_then(|s| s.parse::<u64>().ok()) else { continue };
             let Ok(link) = std::fs::read_link(e.path()) else { continue };
@@ -330,6 +367,7 @@ pub fn live_strategy() -> impl Strategy<Value = LiveCase> {
         proptest::collection::vec((any::<u8>(), 0u8..8, any::<bool>()), 0..6),
         0u8..4,
         any::<bool>(),
+        proptest::bool::weighted(0.3),
         prop_oneof![
             3 => Just(AuxvMode::Kernel),
             2 => Just(AuxvMode::TrueDirect),
@@ -337,7 +375,7 @@ pub fn live_strategy() -> impl Strategy<Value = LiveCase> {
             3 => valid_dso_strategy().prop_map(AuxvMode::Synthetic),
         ],
     )
-        .prop_map(|(argv, env, rlimits, fds, maps, parked, blamed_other, auxv)| LiveCase { argv, env, rlimits, fds, maps, parked, blamed_other, auxv })
+        .prop_map(|(argv, env, rlimits, fds, maps, parked, blamed_other, fd_churn, auxv)| LiveCase { argv, env, rlimits, fds, maps, parked, blamed_other, auxv, fd_churn })
 }
 
 pub fn run(ctx: &mut LaneCtx) {
